@@ -287,8 +287,8 @@ func scenarioList(e *Env) []ScenarioSpec {
 	bursts := e.N(400, 6000)
 	var specs []ScenarioSpec
 	for _, c := range componentNames() {
-		specs = append(specs, ScenarioSpec{Name: "stress_" + c, Component: c, Mode: "stress", Threads: 6, Millis: ms, Seed: e.Rng.U64(), Deadline: 3000})
-		specs = append(specs, ScenarioSpec{Name: "lin_" + c, Component: c, Mode: "lin", Threads: 3, Bursts: bursts, Seed: e.Rng.U64(), Deadline: 3000})
+		specs = append(specs, ScenarioSpec{Name: "stress_" + c, Component: c, Mode: "stress", Threads: 6, Millis: ms, Seed: e.Rng.U64(), Deadline: 5000})
+		specs = append(specs, ScenarioSpec{Name: "lin_" + c, Component: c, Mode: "lin", Threads: 3, Bursts: bursts, Seed: e.Rng.U64(), Deadline: 5000})
 	}
 	// targeted counterexample search for methods whose lock obligation failed: "Class.method,Class.method"
 	if t := os.Getenv("VERIF_C17_TARGET"); t != "" {
@@ -309,7 +309,7 @@ func scenarioList(e *Env) []ScenarioSpec {
 		sort.Strings(comps)
 		for _, c := range comps {
 			specs = append(specs, ScenarioSpec{Name: "target_" + c, Component: c, Mode: "stress", Methods: targetMethods(c, byComp[c]),
-				Threads: 6, Millis: e.N(4000, 20000), Seed: e.Rng.U64(), Deadline: 3000})
+				Threads: 6, Millis: e.N(4000, 20000), Seed: e.Rng.U64(), Deadline: 5000})
 		}
 	}
 	return specs
@@ -429,8 +429,19 @@ func stress(comp *Component, sp ScenarioSpec, res *ChildResult) {
 	}
 	end := time.Now().Add(time.Duration(sp.Millis) * time.Millisecond)
 	blocked := false
-	for time.Now().Before(end) && !blocked {
-		time.Sleep(50 * time.Millisecond)
+	finished := make(chan struct{})
+	go func() { wg.Wait(); close(finished) }()
+	allDone := false
+	for !blocked && !allDone {
+		select {
+		case <-finished:
+			allDone = true
+			continue
+		case <-time.After(50 * time.Millisecond):
+		}
+		if !time.Now().Before(end) {
+			atomic.StoreInt32(&stop, 1) // the measuring period is over; keep watching until every call has returned
+		}
 		for t, s := range slots {
 			s.mu.Lock()
 			if s.busy && time.Since(s.since) > deadline {
@@ -469,7 +480,6 @@ func stress(comp *Component, sp ScenarioSpec, res *ChildResult) {
 		}
 		return
 	}
-	wg.Wait()
 	if len(res.PanicMsgs) > 6 {
 		res.PanicMsgs = res.PanicMsgs[:6]
 	}
